@@ -642,6 +642,13 @@ func (e *Eng) verifyFunc(fc *FuncContract, refute bool, unrollK int) (res *FuncR
 	for _, c := range fc.DataInv {
 		vc.Assume(ctx.fact(c.E))
 	}
+	if len(fc.PanicsIf) > 0 {
+		var cs []*Term
+		for _, c := range fc.PanicsIf {
+			cs = append(cs, ctx.cond(c.E, tTrue))
+		}
+		tr.panicsIfT = vc.Def("panicsif", Or(cs...))
+	}
 	tr.st = tr.entry
 	tr.assumeGlobals()
 	// ghost lock counters are never negative
@@ -702,7 +709,7 @@ func (e *Eng) verifyFunc(fc *FuncContract, refute bool, unrollK int) (res *FuncR
 			if r.St.Reach.IsFalse() || fc.DeadReturns[i+1] {
 				continue
 			}
-			cov := vc.Oblige("cover", fmt.Sprintf("return%d", i+1), r.St.Reach, "")
+			cov := vc.Oblige("cover", fmt.Sprintf("return%d", i+1), r.St.Reach, r.Pos)
 			cov.ExpectSat = true
 		}
 	}
@@ -777,6 +784,10 @@ func (tr *FnTr) checkPost(fc *FuncContract, fn *ssa.Function, results []Val, kin
 		}
 		g := ctx.goal(c.E)
 		tr.vc.Oblige("datainv", labelOr(c.Label, i+1), Implies(tr.st.Reach, g), c.Pos)
+	}
+	if !exc && tr.panicsIfT != nil && !tr.refute {
+		// a normal return happens only when no announced panic condition held at entry
+		tr.vc.Oblige("panicsif", "definite", Implies(tr.st.Reach, Not(tr.panicsIfT)), fc.PanicsIf[0].Pos)
 	}
 	if exc {
 		for i, c := range fc.Panics {
